@@ -67,6 +67,8 @@ def boot():
     logging.getLogger("bldfm").setLevel(logging.ERROR)
     import bldfm  # noqa
 
+    _set_verbosity()
+
     where = os.path.realpath(bldfm.__file__)
     if not where.startswith(os.path.realpath(s) + os.sep):
         print(
@@ -75,4 +77,21 @@ def boot():
         )
         sys.exit(2)
     logging.getLogger("bldfm").setLevel(logging.ERROR)
+    _set_verbosity()
     return bldfm
+
+
+def _set_verbosity():
+    """Every fourth shard runs the package at DEBUG verbosity (the runner sets VERIF_BLDFM_LOGLEVEL): what a run computes must not
+    depend on how much of it is logged.  The records are formatted and thrown away."""
+    import logging
+
+    if os.environ.get("VERIF_BLDFM_LOGLEVEL", "ERROR") == "DEBUG":
+        lg = logging.getLogger("bldfm")
+        lg.setLevel(logging.DEBUG)
+        if not any(getattr(h, "_verif_sink", False) for h in lg.handlers):
+            h = logging.StreamHandler(open(os.devnull, "w"))
+            h._verif_sink = True
+            h.setLevel(logging.DEBUG)
+            lg.addHandler(h)
+        lg.propagate = False
